@@ -236,7 +236,14 @@ pub fn text_for(t: &Tree, rng: &mut Rng) -> Vec<u8> {
         1 => refjson::Style { ws: 1, esc: 1, numvar: true },
         _ => refjson::Style { ws: 1, esc: 0, numvar: false },
     };
-    refjson::to_text(t, &st, rng, false)
+    let body = refjson::to_text(t, &st, rng, false);
+    if st.ws == 1 && rng.chance(1, 6) {
+        // leading whitespace other than a space is ordinary JSON text too
+        let mut out = rng.pick(&[&b"\n"[..], b"\t", b"\r\n", b"\n  ", b"\t "]).to_vec();
+        out.extend_from_slice(&body);
+        return out;
+    }
+    body
 }
 
 /// documents whose text looks like a binary header / stresses number text
